@@ -213,7 +213,9 @@ Definition validate_contract (queries : list (N * aplan)) (r : request) : option
       end
   end.
 
-Definition nthN {A} (l : list A) (i : N) : option A := nth_error l (N.to_nat i).
+(* Vec index by a u64 tick; the length test comes first so that huge ticks never reach the unary index *)
+Definition nthN {A} (l : list A) (i : N) : option A :=
+  if lenN l <=? i then None else nth_error l (N.to_nat i).
 Definition last_opt {A} (l : list A) : option A :=
   match l with [] => None | x :: r => Some (last r x) end.
 
@@ -354,7 +356,7 @@ Section Observe.
   Record world := { lines : list (N * wline); gtick : N; queries : list (N * aplan) }.
 
   (* ---------------------------------------------------------------- checked replay (cursor coordinates) *)
-  Fixpoint replay_from (s : St) (h : list entry) (n : nat) : option St :=
+  Fixpoint replay_from (s : St) (h : list entry) (n : nat) {struct n} : option St :=
     match n with
     | O => Some s
     | S n' =>
